@@ -531,26 +531,43 @@ TowerB(fn, re, ord) ==
                 f2 == G2(ord, (re (.) f1) (.) rec)
                 f3 == G3(ord, ((SAddF(SMulF(re (.) re, QInt(2)), Q1) (.) f1) (.) rec) (.) rec)
             IN  <<f0, f1, f2, f3>>
+      \* atan, asinh, acosh (since the repair "fix: derivatives of atan, asinh, acosh where x*x overflows"):
+      \*   big = |re()| > 1 (acosh: re() > 2);  r = if big { re.recip() } else { re };  den = 1 + r*r (acosh: 1 - r*r resp. r*r - 1)
+      \*   xr = r/den  ( = x/(1 +- x^2) in both branches),  rec = if big { r*r/den resp. r*xr } else { den.recip() }
+      \* before: rec = (1 +- re*re).recip(), f1 = rec resp. rec.sqrt(), f3 = (c re*re -+ 1) * f1 * rec * rec  -- inf * 0 = NaN and
+      \* f1 = 0 once re*re overflows (Special.tla, cases "sqoverflow", "sqoverflow4")
       [] fn = "atan" ->
-            LET rec == SRecip(SOne (+) (re (.) re))
+            LET big == FLt(FOfQ(Q1), FAbs(SRe(re)))
+                r   == IF big THEN SRecip(re) ELSE re
+                den == SOne (+) (r (.) r)
+                rec == IF big THEN (r (.) r) (/) den ELSE SRecip(den)
                 f0 == SFun("atan", re)
                 f1 == rec
-                f2 == G2(ord, SMulF((SNeg(re) (.) f1) (.) rec, QInt(2)))
-                f3 == G3(ord, ((SSubF(SMulF(re (.) re, QInt(6)), QInt(2)) (.) f1) (.) rec) (.) rec)
+                xr == r (/) den
+                f2 == G2(ord, SMulF(SNeg(xr) (.) rec, QInt(2)))
+                f3 == G3(ord, (SMulF(xr (.) xr, QInt(6)) (-) SMulF(rec (.) rec, QInt(2))) (.) f1)
             IN  <<f0, f1, f2, f3>>
       [] fn = "asinh" ->
-            LET rec == SRecip(SOne (+) (re (.) re))
+            LET big == FLt(FOfQ(Q1), FAbs(SRe(re)))
+                r   == IF big THEN SRecip(re) ELSE re
+                den == SOne (+) (r (.) r)
                 f0 == SFun("asinh", re)
-                f1 == SFun("sqrt", rec)
-                f2 == G2(ord, (SNeg(re) (.) f1) (.) rec)
-                f3 == G3(ord, ((SSubF(SMulF(re (.) re, QInt(2)), Q1) (.) f1) (.) rec) (.) rec)
+                f1 == IF big THEN (IF SIsPositive(r) THEN r ELSE SNeg(r)) (/) SFun("sqrt", den) ELSE SRecip(SFun("sqrt", den))
+                xr == r (/) den
+                f2 == G2(ord, SNeg(xr) (.) f1)
+                rec == IF big THEN r (.) xr ELSE SRecip(den)
+                f3 == G3(ord, (SMulF(xr (.) xr, QInt(2)) (-) (rec (.) rec)) (.) f1)
             IN  <<f0, f1, f2, f3>>
       [] fn = "acosh" ->
-            LET rec == SRecip(SSubF(re (.) re, Q1))
+            LET big == FLt(FOfQ(<<2, 1>>), SRe(re))
+                r   == IF big THEN SRecip(re) ELSE re
+                den == IF big THEN SOne (-) (r (.) r) ELSE SSubF(r (.) r, Q1)
                 f0 == SFun("acosh", re)
-                f1 == SFun("sqrt", rec)
-                f2 == G2(ord, (SNeg(re) (.) f1) (.) rec)
-                f3 == G3(ord, ((SAddF(SMulF(re (.) re, QInt(2)), Q1) (.) f1) (.) rec) (.) rec)
+                f1 == IF big THEN r (/) SFun("sqrt", den) ELSE SRecip(SFun("sqrt", den))
+                xr == r (/) den
+                f2 == G2(ord, SNeg(xr) (.) f1)
+                rec == IF big THEN r (.) xr ELSE SRecip(den)
+                f3 == G3(ord, (SMulF(xr (.) xr, QInt(2)) (+) (rec (.) rec)) (.) f1)
             IN  <<f0, f1, f2, f3>>
       [] fn = "atanh" ->
             LET rec == SRecip(SOne (-) (re (.) re))
